@@ -110,7 +110,7 @@ for t, u in (("bui31", 34), ("bui63", 66), ("bi31", 34), ("bi63", 66)):
       "%s_next: for every well-formed container and every reachable cursor the call delivers the first undelivered member in rank order with a non-zero cursor past it, or cursor 0 when none is left" % t,
       ["%s_next" % t], unwind=u, solver=["minisat", "kissat"])
 for t in ("bui31", "bui63", "bi31", "bi63"):
-    O("C19.collect_%s" % t, "C19", "h_C19.c", "h_C19_collect_%s" % t,
+    O("C19.collect_%s" % t, ["C19", "C09"], "h_C19.c", "h_C19_collect_%s" % t,
       "%s: a complete iteration in the callers' protocol yields each member exactly once, nothing else, and ends (lemma L-C19 checked from the iterator contract with an inductive loop invariant)" % t,
       ["%s_next" % t], dfcc=True, replace=["%s_next" % t], loop_contracts=True,
       replace_status={"%s_next" % t: "discharged by C19.%s_next" % t},
@@ -346,7 +346,7 @@ P("C07", level="proof",
   level_note="Trusted: CBMC semantics; zone files satisfy ZIF_WF (strictly increasing transitions, type indices < typecnt); C division identity for offset arithmetic (C08). Bounded: number of transitions in the abstract zone (4 quick / 8 thorough) for termination and uniqueness. Not covered: the zoneinfo loader (mmap, byte order, v2+ data), the MFU zone cache of tzob.c, the per-occurrence offset correction in evical.c refill.",
   not_covered=["zoneinfo file loader (__read_zif, __conv_zif), 64-bit data and POSIX TZ footers", "tzob.c MFU cache of open zones and zone-index encoding", "offset correction per occurrence in refill / __make_evrrul (evical.c)"])
 E07 = dict(solver=["minisat", "kissat"], timeout={"quick": 900, "thorough": 3600}, unwind=8, native_srcs=[])
-O("C07.find_trno", "C07", "h_C07.c", "h_C07_find_trno",
+O("C07.find_trno", ["C07", "C09"], "h_C07.c", "h_C07_find_trno",
   "__find_trno over every zone with <= 4 strictly increasing transitions and every t: returns the index of the last transition at or before t (-1 before the first) and terminates (unwinding assertion), also when t equals a transition",
   ["__find_trno", "zif_trans"], kind="bounded", bound="<= 4 transitions", **E07)
 O("C07.offs", "C07", "h_C07.c", "h_C07_offs",
@@ -369,7 +369,7 @@ O("C14.vtodoify", "C14", "h_C14.c", "h_C14_vtodoify",
 
 # ------------------------------------------------------------------ C09 / C16 fillers
 P("C09", level="proof",
-  level_text="Function and loop contracts on the real sub-daily fillers of evrrul.c (iterators and calendar kernels by the contracts C19 / C01.k discharge; every loop has an in-place inductive loop contract incl. a lexicographic decreases clause): for every valid DTSTART, every well-formed BYxxx container state, INTERVAL = 1 (quick) / up to 64 (thorough) - the carries divide INTERVAL-sized sums, wide operands are out of reach -, any COUNT/UNTIL: all array accesses and shifts are in bounds, the function returns at most what was asked for, every loop terminates (the cursor strictly advances and stops at the end of the supported range), results are real date-times.",
+  level_text="Function and loop contracts on the real sub-daily fillers of evrrul.c (iterators and calendar kernels by the contracts C19 / C01.k discharge; every loop has an in-place inductive loop contract incl. a lexicographic decreases clause): for every valid DTSTART, every well-formed BYxxx container state, INTERVAL up to 64; this obligation is in the thorough tier only (24 min); the quick tier keeps the termination and iteration obligations it shares with C07/C19 and the refill obligation - the carries divide INTERVAL-sized sums, wide operands are out of reach -, any COUNT/UNTIL: all array accesses and shifts are in bounds, the function returns at most what was asked for, every loop terminates (the cursor strictly advances and stops at the end of the supported range), results are real date-times.",
   level_note="Trusted: CBMC semantics and DFCC loop-contract instrumentation; RR_WF (containers well-formed, INTERVAL >= 1) as established by the parser (not verified: snarf_rrule uses libc). Covered fillers are listed in the evidence; rrul_fill_yly/mly and their helpers, make_enum and refill/next_evrrul are not covered.",
   not_covered=["rrul_fill_yly / rrul_fill_mly and the fill_yly_*/fill_mly_* helpers, clr_poss, shift", "make_enum time-of-day enumeration", "refill / next_evrrul cache indices", "snarf_rrule (libc strtol, gperf)"])
 P("C16", level="proof",
@@ -380,10 +380,10 @@ EF = dict(dfcc=True, loop_contracts=True, with_unwind=True,
           replace=["bi447_next", "bui31_next", "bi31_next", "bui63_next", "ymd_get_wday", "__get_ndom"],
           replace_status={"bi447_next": "discharged by C19.bi447_next", "bui31_next": "discharged by C19.bui31_next", "bi31_next": "discharged by C19.bi31_next",
                           "bui63_next": "discharged by C19.bui63_next", "ymd_get_wday": "discharged by C01.k.wday", "__get_ndom": "discharged by C01.k.wday"},
-          solver=["minisat", "kissat"], mem_gb=24, timeout={"quick": 1500, "thorough": 7200}, replay=False, replay_note="callees replaced by contracts, symbolic container states",
-          defines={"quick": ["-DRR_INTER_MAX=1U"], "thorough": ["-DRR_INTER_MAX=64U"]})
+          solver=["minisat"], mem_gb=28, timeout={"quick": 1500, "thorough": 7200}, replay=False, replay_note="callees replaced by contracts, symbolic container states",
+          defines=["-DRR_INTER_MAX=64U"], tiers=["thorough"])
 O("C09.Sly", ["C09", "C16", "C01"], "h_C09.c", "h_C09_Sly",
-  "rrul_fill_Sly: memory safe, returns <= nti and <= COUNT, terminates, output strictly increasing, within [DTSTART, UNTIL], real date-times - for every valid DTSTART, every well-formed container state, INTERVAL 1 (quick) / 1..64 (thorough, 24 min on this machine)",
+  "rrul_fill_Sly: memory safe, returns <= nti and <= COUNT, terminates, output strictly increasing, within [DTSTART, UNTIL], real date-times - for every valid DTSTART, every well-formed container state, INTERVAL 1..64 (thorough tier only: 24 min, 14 GB on this machine)",
   ["rrul_fill_Sly"], **EF)
 
 # ------------------------------------------------------------------ C05
@@ -410,7 +410,7 @@ P("C17", level="other",
   explanation="the Easter clause is proved for all years; the SHIFT clauses are not covered",
   not_covered=["shift(): calendar-day and business-day shifts, -0B, B+/B-", "fill_yly_eastr: N days from Easter across the year boundary", "snarf_shift text parsing"])
 P("C13", not_applicable="executor output routing is kernel/process behaviour (pipes, splice/tee/sendfile, exec, signals, waitpid): no function contract within CBMC's reach can express 'every byte the job writes arrives exactly once'; proving a model of the kernel would be a different technique family (DESIGN.md section 7)")
-O("C16.refill", ["C16", "C01", "C05"], "h_C16.c", "h_C16_refill",
+O("C16.refill", ["C16", "C01", "C05", "C09"], "h_C16.c", "h_C16_refill",
   "refill at the 64-occurrence boundary: 63 delivered and the 64th held back as the next seed (never lost, never twice), shorter batches end the stream, COUNT decreases by exactly the number delivered; for every FREQ and COUNT",
   ["refill"], solver=["minisat", "kissat"], timeout={"quick": 600, "thorough": 1800}, unwind=66, replay=False, replay_note="filler stubs use nondet results",
   assumptions=["the seven fillers are represented by a stub with their contract (n <= asked, n <= COUNT); zone offset, rescale and sort by identity stubs"])
